@@ -12,7 +12,7 @@ try:
     if cp.returncode != 0:
         print("patch does not apply:", cp.stdout[-300:]); sys.exit(2)
     def run(p):
-        o = subprocess.run(["/verif/bin/c4echeck", "-prop", p, "-tier", "quick", "-repo", t + "/src", "-verif", "/verif", "-out", t + "/out-" + p], capture_output=True, text=True, env=ENV)
+        o = subprocess.run([os.environ.get("C4E_BIN", "/verif/bin/c4echeck"), "-prop", p, "-tier", "quick", "-repo", t + "/src", "-verif", "/verif", "-out", t + "/out-" + p], capture_output=True, text=True, env=ENV)
         return p, o.returncode, o.stdout
     bad = 0
     with concurrent.futures.ThreadPoolExecutor(max_workers=j) as ex:
